@@ -173,10 +173,14 @@ func (p *packageParse) completePack(msg *Message) (*Message, bool) {
 func (p *packageParse) add(id uint16, header *jt808.Header) {
 	p.subcontractingRecord[id] = make([][]byte, header.SubPackageSum)
 	now := time.Now()
+	// 记录保存自己的一份header 补传请求会改写ReplyID和消息体属性 不能改到已经交付出去的第一包上
+	initHeader := *header
+	property := *header.Property
+	initHeader.Property = &property
 	p.timeoutRecord[id] = &packageComplete{
 		createTime: now,
 		updateTime: now,
-		initHeader: header,
+		initHeader: &initHeader,
 	}
 }
 
